@@ -14,6 +14,7 @@ import (
 	"path/filepath"
 	"sort"
 	"strings"
+	"sync"
 	"syscall"
 
 	"tags.cncf.io/container-device-interface/pkg/cdi"
@@ -122,8 +123,35 @@ type reportChild struct {
 	w   interface{ Close() error }
 }
 
-func startReportChild(uid uint32, dirs []string) (*reportChild, error) {
-	exe, err := os.Executable()
+var childExe struct {
+	once sync.Once
+	path string
+	err  error
+}
+
+// unprivilegedExe returns a copy of this binary that uid 65534 can execute
+// (the harness may live under a directory only root can enter).
+func unprivilegedExe(scratch string) (string, error) {
+	childExe.once.Do(func() {
+		exe, err := os.Executable()
+		if err != nil {
+			childExe.err = err
+			return
+		}
+		data, err := os.ReadFile(exe)
+		if err != nil {
+			childExe.err = err
+			return
+		}
+		os.Chmod(scratch, 0o755)
+		childExe.path = filepath.Join(scratch, "vcheck-child")
+		childExe.err = os.WriteFile(childExe.path, data, 0o755)
+	})
+	return childExe.path, childExe.err
+}
+
+func startReportChild(scratch string, uid uint32, dirs []string) (*reportChild, error) {
+	exe, err := unprivilegedExe(scratch)
 	if err != nil {
 		return nil, err
 	}
@@ -488,7 +516,7 @@ func c13Scenario(cs *Case, base *Pop, f c13Fault, second *c13Fault, auto bool, n
 	}
 	switch {
 	case perm:
-		rc, err := startReportChild(65534, p.Conf)
+		rc, err := startReportChild(c.Scratch, 65534, p.Conf)
 		if err != nil {
 			c.Inconclusive("child-start")
 			return
